@@ -170,6 +170,28 @@ func runC45(c *Ctx) {
 	}
 	viewBeforeSeqNum(c, "C45.O1")
 	constructorReleases(c, "C45.P1")
+	hideObsoleteAtReaderSeqNum(c, "C45.V1")
+}
+
+// hideObsoleteAtReaderSeqNum: sstable iterators may hide points marked obsolete only relative
+// to the READER's sequence number: every store to IterOptions.snapshotForHideObsoletePoints
+// takes the reader's seqNum (or copies the same option from another options struct).
+func hideObsoleteAtReaderSeqNum(c *Ctx, rule string) {
+	f := c.Field(rule, "p.IterOptions.snapshotForHideObsoletePoints")
+	n := 0
+	for _, fn := range pebbleFuncs(c) {
+		for _, in := range instrs(fn, StoreTo(f)) {
+			n++
+			v := in.(*ssa.Store).Val
+			p := pathOf(v)
+			ok := pathHasSuffix(p, "seqNum") || pathHasSuffix(p, "snapshotForHideObsoletePoints")
+			c.Ob(rule, fn, "obsolete points are hidden relative to the reader's own sequence number", c.P.Pos(in.Pos()), ok,
+				map[bool]string{true: "", false: "snapshotForHideObsoletePoints is set from " + p + " instead of the reader's seqNum: versions still visible to an older reader would be skipped"}[ok])
+		}
+	}
+	if n < 3 {
+		c.Unresolved(rule, "fewer than 3 stores to snapshotForHideObsoletePoints found")
+	}
 }
 
 // constructorReleases: an internal iterator whose construction fails releases
